@@ -212,6 +212,12 @@ def _cases():
         case("slice", "slice", lambda h: ([h.q(two(h)), 0, 0, 1], {}))
         case("unsqueeze", "unsqueeze", lambda h: ([h.q(two(h)), 0], {}))
         case("transpose", "transpose", lambda h: ([h.q(two(h)), 0, 1], {}))
+        # rank 3: the two swapped dimensions may or may not include the quantization axis, and may be spelled negatively
+        case("transpose-3d-01", "transpose", lambda h: ([h.q(h.dims(3)), 0, 1], {}))
+        case("transpose-3d-12", "transpose", lambda h: ([h.q(h.dims(3)), 1, 2], {}))
+        case("transpose-3d-neg", "transpose", lambda h: ([h.q(h.dims(3)), -1, -2], {}))
+        case("transpose-3d-negfirst", "transpose", lambda h: ([h.q(h.dims(3)), -3, 1], {}))
+        case("permute-3d", "permute", lambda h: ([h.q(h.dims(3)), [1, 0, 2]], {}))
         case("t-2d", "t", lambda h: ([h.q(two(h))], {}))
         case("t-1d", "t", lambda h: ([h.q(h.dims(1))], {}), axes=(None,))
         case("view-flat", "view", lambda h: ([h.q(two(h)), [-1]], {}))
